@@ -14,7 +14,10 @@ RULE = ("schedules for a real TCPLayer/UDPLayer (flow or ignore mode, server pre
         "adversarial (data after close, repeated closes, second Start, missing Start). The environment of server.py "
         "(state bits cleared before ConnectionClosed is delivered, commands executed as they are yielded) is played by "
         "the harness. thorough adds every schedule of length <= 5 over a 7-letter alphabet after a completed start, for "
-        "TCP/UDP. Non-trivial = data was relayed and a close was handled; distinct by canonical JSON.")
+        "TCP/UDP. Plus 40 (quick) / 320 (thorough) oracle-only end-to-end cases: TCPLayer below real ServerTLSLayer and/or "
+        "ClientTLSLayer with in-memory OpenSSL peers (TLS 1.2/1.3): data both ways, one peer ends its direction with "
+        "close_notify+FIN or bare FIN, the other keeps sending, addon edits, final close; what each peer DECRYPTS is compared "
+        "with flow.messages. Non-trivial = data was relayed and a close was handled; distinct by canonical JSON.")
 TRUSTED = ["Coq 8.16.1 kernel; vm_compute for case evaluation",
            "harness plays mitmproxy/proxy/server.py: ConnectionClosed preceded by state &= ~CAN_READ (TCP) / CLOSED (UDP); "
            "CloseConnection -> CLOSED, CloseTcpConnection(half_close) -> state &= ~CAN_WRITE if writable, each applied when "
@@ -22,7 +25,9 @@ TRUSTED = ["Coq 8.16.1 kernel; vm_compute for case evaluation",
            "pause/queue behaviour of Layer.handle_event is executed for real in the correspondence run and restated in "
            "Model/RawRelay.v (drain/arrive); its generic correctness is C04",
            "hand model of the two generator functions split at their blocking yields, tied by correspondence only"]
-ASSUMPTIONS = ["addons change only flow.messages[-1].content and only inside the tcp_message/udp_message hook, and may call "
+ASSUMPTIONS = ["the transport below TCPLayer (SendData to a connection reaches that peer unchanged until the layer closes it) is a "
+               "contract in the theorems; tunnel/TLS layers implementing it are exercised by the end-to-end TLS cases only",
+               "addons change only flow.messages[-1].content and only inside the tcp_message/udp_message hook, and may call "
                "flow.kill() in any hook when flow.killable; other mutations of the flow are out of scope",
                "events for connections other than context.client/context.server are not generated",
                "debug logging of Layer not modelled"]
@@ -126,7 +131,48 @@ def gen(rng, n, tier):
         if rng.chance(0.75):
             evs += [_reply(rng) for _ in range(rng.randint(1, 6))]
         out.append({"proto": proto, "ignore": ignore, "sopen": sopen, "uni": uni, "evs": evs})
+    for _ in range(TLS_THOROUGH if tier == "thorough" else TLS_QUICK):
+        out.append(gen_tls(rng))
     return out
+
+
+
+# ------------------------------------------------------------------ end-to-end cases over real TLS layers (oracle only)
+TLS_QUICK, TLS_THOROUGH = 40, 320
+
+
+def gen_tls(rng):
+    """raw TCP relayed by TCPLayer below real ServerTLSLayer / ClientTLSLayer with in-memory TLS peers: data both ways,
+    one peer ends its direction (close_notify+FIN or bare FIN), the other keeps sending, addon edits, final close."""
+    sides = rng.choice(["s", "s", "c", "c", "cs"])
+    ops, open_ = [], {"c": True, "s": True}
+    nmsg = 0
+    for _ in range(rng.randint(2, 9)):
+        live = [x for x in "cs" if open_[x]]
+        if not live:
+            break
+        x = rng.choice(live)
+        if rng.chance(0.2 if all(open_.values()) else 0.12):
+            ops.append(["cn" if rng.chance(0.75) else "fin", x])
+            open_[x] = False
+        else:
+            ops.append([x, hx(rng.choice([b"hello", b"my secret is 42, ", b"x", b"GET / HTTP/1.1\r\n\r\n", b"\x00\xff" * 9]) + rng.bytes(rng.randint(0, 5)))])
+            nmsg += 1
+    if all(open_.values()) and rng.chance(0.8):   # make sure most cases contain a half-close followed by traffic
+        x = rng.choice("cs")
+        ops.append(["cn" if rng.chance(0.75) else "fin", x])
+        open_[x] = False
+        y = "s" if x == "c" else "c"
+        for _ in range(rng.randint(1, 3)):
+            ops.append([y, hx(b"after half-close " + rng.bytes(rng.randint(0, 4)))])
+            nmsg += 1
+    if rng.chance(0.85):
+        for x in "cs":
+            if open_[x]:
+                ops.append(["cn" if rng.chance(0.6) else "fin", x])
+                open_[x] = False
+    edits = {str(i): hx(rng.choice([b"", b"******", b"EDITED" + rng.bytes(3)])) for i in range(nmsg) if rng.chance(0.3)}
+    return {"k": "tls", "sides": sides, "ver": rng.choice(["1.2", "1.3"]), "ignore": rng.chance(0.1), "ops": ops, "edits": edits}
 
 
 # ------------------------------------------------------------------ implementation
@@ -138,6 +184,12 @@ def setup_impl():
     from mitmproxy.connection import ConnectionState as CS
     from mitmproxy.proxy import events, commands, context
     from mitmproxy.proxy.layers import tcp as ltcp, udp as ludp
+    global ltls, SSL, pyssl, CERTS
+    import os
+    import ssl as pyssl
+    from OpenSSL import SSL
+    from mitmproxy.proxy.layers import tls as ltls
+    CERTS = os.path.join(os.environ.get("VERIF_REPO", "/repo"), "test", "mitmproxy", "net", "data", "verificationcerts") + os.sep
 
 
 def _ctx(sopen, uni=False):
@@ -152,7 +204,185 @@ def _ctx(sopen, uni=False):
     return ctx
 
 
+class _TlsPeer:
+    """in-memory TLS endpoint (Python ssl on MemoryBIOs), as in test_tls.py SSLTest / harness C14"""
+
+    def __init__(self, server_side, ver):
+        self.inc, self.out = pyssl.MemoryBIO(), pyssl.MemoryBIO()
+        ctx = pyssl.SSLContext(pyssl.PROTOCOL_TLS_SERVER if server_side else pyssl.PROTOCOL_TLS_CLIENT)
+        if server_side:
+            ctx.load_cert_chain(CERTS + "trusted-leaf.crt", CERTS + "trusted-leaf.key")
+        else:
+            ctx.check_hostname = False
+            ctx.verify_mode = pyssl.CERT_NONE
+        if ver == "1.2":
+            ctx.maximum_version = pyssl.TLSVersion.TLSv1_2
+        self.obj = ctx.wrap_bio(self.inc, self.out, server_side=server_side,
+                                server_hostname=None if server_side else "example.mitmproxy.org")
+        self.done = False
+        self.got = bytearray()
+
+    def handshake(self):
+        if not self.done:
+            try:
+                self.obj.do_handshake()
+                self.done = True
+            except pyssl.SSLWantReadError:
+                pass
+
+    def feed(self, data):
+        self.inc.write(data)
+        if not self.done:
+            return
+        while True:
+            try:
+                r = self.obj.read(65536)
+            except (pyssl.SSLWantReadError, pyssl.SSLZeroReturnError, pyssl.SSLError):
+                break
+            if not r:
+                break
+            self.got += r
+
+    def close_notify(self):
+        try:
+            self.obj.unwrap()
+        except pyssl.SSLError:
+            pass
+
+
+def run_tls(case):
+    ctx = _ctx(False)
+    ctx.server.sni = "example.mitmproxy.org"
+    ctx.server.address = ("example.mitmproxy.org", 443)
+    ctx.server.state = CS.OPEN  # eagerly connected
+    ctx.server.timestamp_start = 1605699330
+    sides = case["sides"]
+    stack = []
+    if "s" in sides:
+        stack.append(ltls.ServerTLSLayer(ctx))
+    else:
+        ltcp.TCPLayer(ctx, ignore=True)  # stands for the mode layer above: ClientTLSLayer inspects context.layers[-2]
+    if "c" in sides:
+        stack.append(ltls.ClientTLSLayer(ctx))
+    tcpl = ltcp.TCPLayer(ctx, ignore=case["ignore"])
+    stack.append(tcpl)
+    for a, b in zip(stack, stack[1:]):
+        a.child_layer = b
+    top = stack[0]
+    conn = {"c": ctx.client, "s": ctx.server}
+    name = lambda c: "c" if c is ctx.client else ("s" if c is ctx.server else "?")
+    peer = {x: (_TlsPeer(server_side=(x == "s"), ver=case["ver"]) if x in sides else None) for x in "cs"}
+    got_plain = {"c": bytearray(), "s": bytearray()}
+    hooks, closes, alien = [], [], []
+    sends_after_end = [0]
+    fin = {"c": False, "s": False}
+
+    def execute(cmd, queue):
+        if isinstance(cmd, commands.StartHook):
+            hooks.append(cmd.name)
+            if isinstance(cmd, ltls.TlsStartClientHook):
+                c = SSL.Context(SSL.SSLv23_METHOD)
+                c.use_privatekey_file(CERTS + "trusted-leaf.key")
+                c.use_certificate_chain_file(CERTS + "trusted-leaf.crt")
+                cmd.data.ssl_conn = SSL.Connection(c)
+                cmd.data.ssl_conn.set_accept_state()
+            elif isinstance(cmd, ltls.TlsStartServerHook):
+                cmd.data.ssl_conn = SSL.Connection(SSL.Context(SSL.SSLv23_METHOD))
+                cmd.data.ssl_conn.set_connect_state()
+            elif isinstance(cmd, ltls.TlsClienthelloHook):
+                # what addons/tlsconfig.py does with an eagerly connected upstream
+                cmd.data.establish_server_tls_first = "s" in sides
+            elif isinstance(cmd, ltcp.TcpMessageHook):
+                e = case["edits"].get(str(len(cmd.flow.messages) - 1))
+                if e is not None:
+                    cmd.flow.messages[-1].content = unhx(e)
+            if cmd.blocking:
+                queue.append(events.HookCompleted(cmd))
+        elif isinstance(cmd, commands.SendData):
+            if "tcp_end" in hooks or "tcp_error" in hooks:
+                sends_after_end[0] += 1
+            x = name(cmd.connection)
+            if peer.get(x):
+                peer[x].feed(cmd.data)
+            elif x in got_plain:
+                got_plain[x] += cmd.data
+        elif isinstance(cmd, commands.CloseConnection):
+            half = isinstance(cmd, commands.CloseTcpConnection) and cmd.half_close
+            closes.append([name(cmd.connection), bool(half)])
+            if half:
+                if cmd.connection.state & CS.CAN_WRITE:
+                    cmd.connection.state &= ~CS.CAN_WRITE
+            else:
+                cmd.connection.state = CS.CLOSED
+        elif isinstance(cmd, commands.Log):
+            pass
+        else:
+            alien.append(type(cmd).__name__)
+
+    def event(ev):
+        queue = [ev]
+        while queue:
+            e = queue.pop(0)
+            for cmd in top.handle_event(e):
+                execute(cmd, queue)
+
+    def wire(x):
+        """deliver what TLS peer x has produced to the proxy"""
+        if peer[x] and not fin[x]:
+            data = peer[x].out.read()
+            if data:
+                event(events.DataReceived(conn[x], data))
+
+    exc = None
+    step_closes = []
+    try:
+        event(events.Start())
+        for _ in range(12):
+            for x in "cs":
+                if peer[x]:
+                    peer[x].handshake()
+                    wire(x)
+            if all(p is None or p.done for p in peer.values()):
+                break
+        for x in "cs":
+            wire(x)
+        ready = all(p is None or p.done for p in peer.values()) and all(conn[x].tls_established for x in sides)
+        if ready:
+            for op in case["ops"]:
+                before = len(closes)
+                k = op[0]
+                if k in ("c", "s"):
+                    if peer[k]:
+                        peer[k].obj.write(unhx(op[1]))
+                        wire(k)
+                    else:
+                        event(events.DataReceived(conn[k], unhx(op[1])))
+                else:
+                    x = op[1]
+                    if k == "cn" and peer[x]:
+                        peer[x].close_notify()
+                        wire(x)
+                    fin[x] = True
+                    conn[x].state &= ~CS.CAN_READ                                   # server.py handle_connection
+                    event(events.ConnectionClosed(conn[x]))
+                for y in "cs":
+                    wire(y)
+                step_closes.append(closes[before:])
+    except Exception as e:  # noqa: BLE001
+        exc = f"{type(e).__name__}: {e}"[:200]
+        ready = locals().get("ready", False)
+    got = {x: bytes(peer[x].got) if peer[x] else bytes(got_plain[x]) for x in "cs"}
+    f = tcpl.flow
+    return {"tls": True, "ready": bool(ready), "exc": exc, "alien": alien, "hooks": hooks, "closes": closes,
+            "step_closes": step_closes, "sends_after_end": sends_after_end[0],
+            "got_c": hx(got["c"]), "got_s": hx(got["s"]),
+            "msgs": [[m.from_client, hx(m.content)] for m in f.messages] if f else [],
+            "phase": {"start": 0, "relay_messages": 1, "done": 2}.get(getattr(tcpl._handle_event, "__name__", "?"), 9)}
+
+
 def run_impl(case):
+    if case.get("k") == "tls":
+        return run_tls(case)
     tcp = case["proto"] == "tcp"
     L = ltcp if tcp else ludp
     pre = "Tcp" if tcp else "Udp"
@@ -296,6 +526,8 @@ def c_cmd(c):
 
 
 def coq_case(case, obs):
+    if case.get("k") == "tls":
+        return None  # oracle-only: the transport below TCPLayer is a contract in the theorems
     out = [c for c in obs["out"] if c[0] != "alien"]
     msgs = clist([f"({cbool(m[0])}, {cbytes(unhx(m[1]))})" for m in obs["msgs"]], "(bool * bytes)%type")
     return (f"Case {'TCP' if case['proto'] == 'tcp' else 'UDP'} {cbool(case['ignore'])} {cbool(case['sopen'])} {cbool(case.get('uni'))} "
@@ -328,7 +560,46 @@ def _subseq(a, b):
     return all(any(x == y for y in it) for x in a)
 
 
+def oracle_tls(case, obs):
+    """end to end over real TLS layers: what each PEER decrypts equals the recorded messages of the other direction"""
+    v = []
+    if obs["exc"] or obs["alien"]:
+        return [{"key": "e2e-unexpected-exception", "what": f"TLS+TCP stack raised {obs['exc']} / unknown commands {obs['alien']}"}]
+    if not obs["ready"]:
+        return [{"key": "e2e-tls-setup-failed", "what": "TLS handshake between the in-memory peers and the TLS layers did not complete"}]
+    ops = case["ops"]
+    ndata = {x: sum(1 for o in ops if o[0] == x) for x in "cs"}
+    if not case["ignore"]:
+        rec = {True: b"".join(unhx(m[1]) for m in obs["msgs"] if m[0]), False: b"".join(unhx(m[1]) for m in obs["msgs"] if not m[0])}
+        if unhx(obs["got_s"]) != rec[True]:
+            v.append({"key": "e2e-peer-bytes-differ", "what": f"server peer received {obs['got_s']} but recorded client messages are {rec[True].hex()}"})
+        if unhx(obs["got_c"]) != rec[False]:
+            v.append({"key": "e2e-peer-bytes-differ", "what": f"client peer received {obs['got_c']} but recorded server messages are {rec[False].hex()}"})
+        for x, fc in (("c", True), ("s", False)):
+            if sum(1 for m in obs["msgs"] if m[0] == fc) != ndata[x]:
+                v.append({"key": "e2e-data-lost", "what": f"{ndata[x]} chunks sent by {x} but {sum(1 for m in obs['msgs'] if m[0] == fc)} messages recorded"})
+    else:
+        for x, y in (("c", "s"), ("s", "c")):
+            want = b"".join(unhx(o[1]) for o in ops if o[0] == x)
+            if unhx(obs["got_" + y]) != want:
+                v.append({"key": "e2e-peer-bytes-differ", "what": f"ignore mode: {y} received {obs['got_' + y]} but {x} sent {want.hex()}"})
+    ends = [h for h in obs["hooks"] if h in ("tcp_end", "tcp_error")]
+    closed = [o[1] for o in ops if o[0] in ("cn", "fin")]
+    if len(ends) > 1 or (not case["ignore"] and len(closed) == 2 and ends != ["tcp_end"]) or (len(closed) < 2 and ends):
+        v.append({"key": "e2e-end-hook", "what": f"end/error hooks {ends} with closes {closed}"})
+    if obs["sends_after_end"]:
+        v.append({"key": "e2e-relay-after-end", "what": "SendData after tcp_end"})
+    first = next((i for i, o in enumerate(ops) if o[0] in ("cn", "fin")), None)
+    if first is not None and len(obs["step_closes"]) > first:
+        other = "s" if ops[first][1] == "c" else "c"
+        if obs["step_closes"][first] != [[other, True]]:
+            v.append({"key": "e2e-half-close", "what": f"{ops[first]} produced close commands {obs['step_closes'][first]}, expected half-close of {other}"})
+    return v
+
+
 def oracle(case, obs):
+    if case.get("k") == "tls":
+        return oracle_tls(case, obs)
     v = []
     if obs["exc"] or obs["alien"]:
         v.append({"key": "unexpected-exception", "what": f"layer raised {obs['exc']} or yielded an unknown command"})
@@ -429,10 +700,21 @@ def oracle(case, obs):
 
 
 def nontrivial(case, obs):
+    if case.get("k") == "tls":
+        return obs["ready"] and len(obs["msgs"]) > 1 and bool(obs["closes"])
     return any(c[0] == "send" for c in obs["out"]) and any(c[0] in ("half", "close") for c in obs["out"])
 
 
 def classify(case, obs):
+    if case.get("k") == "tls":
+        t = ["tls-e2e", "tls-" + case["sides"], "tls" + case["ver"]]
+        if any(o[0] == "cn" for o in case["ops"]):
+            t.append("close_notify")
+        if any(c[1] for c in obs["closes"]):
+            t.append("e2e-half-close")
+        if "tcp_end" in obs["hooks"]:
+            t.append("e2e-ended")
+        return t
     t = [case["proto"], "ignore" if case["ignore"] else "flow", "valid" if _valid(case) else "adversarial"]
     if case.get("uni"):
         t.append("write-only-server")
